@@ -512,13 +512,15 @@ class Evaluator:
         self.module = None                  # loader.Module the evaluated code belongs to (for name resolution)
 
     def call_user(self, fnode: ast.FunctionDef, args: List[Any], kwargs: Optional[Dict[str, Any]] = None,
-                  skip_self: bool = False):
+                  skip_self: bool = False, closure: Optional[Dict[str, Any]] = None):
         """Abstractly evaluate a (package) function body on abstract arguments, sharing hooks and containers."""
         a = fnode.args
         names = [x.arg for x in list(a.posonlyargs) + list(a.args)]
         if skip_self and names:
             names = names[1:]
-        env: Dict[str, Any] = {}
+        env: Dict[str, Any] = dict(closure) if closure else {}
+        for nm in names:
+            env.pop(nm, None)
         defaults = list(a.defaults)
         nd = len(defaults)
         for i, nm in enumerate(names):
@@ -652,9 +654,19 @@ class Evaluator:
             if isinstance(v, ast.Constant):
                 out.append(str(v.value))
             elif isinstance(v, ast.FormattedValue):
-                if v.format_spec is not None or v.conversion != -1:
-                    raise Unsupported("format spec in f-string", n)
                 val = self.ev(v.value)
+                if v.format_spec is not None or v.conversion != -1:
+                    if isinstance(val, (int, float, str)) and v.format_spec is not None and v.conversion == -1:
+                        spec = self._e_JoinedStr(v.format_spec)
+                        try:
+                            out.append(format(val, spec))
+                            continue
+                        except (ValueError, TypeError):
+                            raise Unsupported("format spec in f-string", n)
+                    if v.conversion in (114, 115) and v.format_spec is None:    # !r / !s
+                        out.append(render(val, v.conversion == 115))
+                        continue
+                    raise Unsupported("format spec in f-string", n)
                 try:
                     out.append(render(val))
                 except Unsupported:
@@ -860,6 +872,72 @@ class Evaluator:
             handled, val = self._vec_call(n)
             if handled:
                 return val
+        if name in ("zip", "reversed", "map", "filter", "round", "divmod", "pow", "next", "dict", "callable", "type") \
+                and name not in self.env:
+            args, kw = self._call_args(n)
+
+            def as_list(v):
+                if hasattr(v, "abs_iter"):
+                    return list(v.abs_iter())
+                if isinstance(v, Vec):
+                    return list(v.vals)
+                if isinstance(v, (set, frozenset)):
+                    return sorted(v, key=repr)
+                if isinstance(v, dict):
+                    return list(v)
+                if isinstance(v, (list, tuple, str)):
+                    return list(v)
+                raise Unsupported(f"{name} over an abstract iterable", n)
+            if name == "zip":
+                return [tuple(t) for t in zip(*[as_list(a) for a in args])]
+            if name == "reversed":
+                return list(reversed(as_list(args[0])))
+            if name == "map":
+                f = args[0]
+                cols = [as_list(a) for a in args[1:]]
+                return [self._apply(f, list(t), n) for t in zip(*cols)]
+            if name == "filter":
+                f = args[0]
+                return [x for x in as_list(args[1]) if self.truth(self._apply(f, [x], n) if f is not None else x, n)]
+            if name == "round":
+                if any(isinstance(a, (Sym, Lin, Vec)) for a in args):
+                    raise Unsupported("round of symbolic", n)
+                return round(*args)
+            if name == "divmod":
+                return divmod(*args)
+            if name == "pow":
+                return pow(*args)
+            if name == "next":
+                it = args[0]
+                if isinstance(it, OnceIter):
+                    ok, v = it.abs_next()
+                    if ok:
+                        return v
+                    if len(args) > 1:
+                        return args[1]
+                    raise AbsRaise("StopIteration", n)
+                if isinstance(it, list) and it:
+                    return it[0]
+                if len(args) > 1:
+                    return args[1]
+                raise Unsupported("next of abstract", n)
+            if name == "dict":
+                out = {}
+                if args:
+                    src_ = args[0]
+                    if isinstance(src_, dict):
+                        out.update(src_)
+                    else:
+                        for k_, v_ in as_list(src_):
+                            out[k_] = v_
+                out.update(kw)
+                return out
+            if name == "callable":
+                return callable(args[0]) or hasattr(args[0], "abs_call")
+            if name == "type":
+                if isinstance(args[0], (Sym, Lin, Vec, Obj)):
+                    raise Unsupported("type() of an abstract value", n)
+                return type(args[0])
         if name == "repr" and len(n.args) == 1 and not n.keywords:
             return render(self.ev(n.args[0]), False)
         if name == "hash" and len(n.args) == 1:
@@ -908,7 +986,30 @@ class Evaluator:
                     raise Unsupported("sort key is symbolic", n)
                 order = sorted(range(len(seq)), key=lambda i: keys[i], reverse=bool(kw.get("reverse", False)))
                 return [seq[i] for i in order]
-            if n.keywords:
+            if n.keywords and name in ("min", "max"):
+                kw = {k.arg: self.ev(k.value) for k in n.keywords}
+                vals = args[0] if len(args) == 1 else args
+                if hasattr(vals, "abs_iter"):
+                    vals = list(vals.abs_iter())
+                if isinstance(vals, Vec):
+                    vals = list(vals.vals)
+                if isinstance(vals, (set, frozenset, dict)):
+                    vals = sorted(vals, key=repr)
+                vals = list(vals)
+                if not vals:
+                    if "default" in kw:
+                        return kw["default"]
+                    raise AbsRaise("ValueError", n)
+                keyf = kw.get("key")
+                keys = [self._apply(keyf, [x], n) if keyf else x for x in vals]
+                if any(isinstance(k_, (Sym, Lin, Vec)) for k_ in keys):
+                    raise Unsupported("min/max key is symbolic", n)
+                idx = (min if name == "min" else max)(range(len(vals)), key=lambda i: keys[i])
+                return vals[idx]
+            if n.keywords and name == "enumerate":
+                kw = {k.arg: self.ev(k.value) for k in n.keywords}
+                args = args + [kw.get("start", 0)]
+            elif n.keywords:
                 raise Unsupported("keywords in builtin call", n)
             if name == "len":
                 if isinstance(args[0], (list, tuple, str, dict, set, frozenset, Vec)) or hasattr(args[0], "abs_len"):
@@ -961,20 +1062,31 @@ class Evaluator:
             if name == "enumerate":
                 if hasattr(args[0], "abs_iter"):
                     args[0] = list(args[0].abs_iter())
-                if isinstance(args[0], (list, tuple)):
-                    return list(enumerate(args[0]))
+                if isinstance(args[0], Vec):
+                    args[0] = list(args[0].vals)
+                if isinstance(args[0], (set, frozenset)):
+                    args[0] = sorted(args[0], key=repr)
+                if isinstance(args[0], dict):
+                    args[0] = list(args[0])
+                if isinstance(args[0], (list, tuple, str)):
+                    return list(enumerate(args[0], *args[1:2]))
                 raise Unsupported("enumerate of abstract", n)
-        if self.runtime is not None:
+        try:
+            fv = self.ev(n.func)
+        except Unsupported:
+            fv = None
+        if fv is not None and hasattr(fv, "abs_call"):
+            args, kw = self._call_args(n)
+            return fv.abs_call(args, kw, self, n)
+        if callable(fv) and getattr(fv, "__name__", "") == "fn":      # evaluator lambda
+            args, kw = self._call_args(n)
+            return fv(*args)
+        if isinstance(fv, type) and fv in (int, float, str, bool, list, set, tuple, dict, frozenset):
+            args, kw = self._call_args(n)
             try:
-                fv = self.ev(n.func)
-            except Unsupported:
-                fv = None
-            if fv is not None and hasattr(fv, "abs_call"):
-                args, kw = self._call_args(n)
-                return fv.abs_call(args, kw, self, n)
-            if callable(fv) and getattr(fv, "__name__", "") == "fn":      # evaluator lambda
-                args, kw = self._call_args(n)
-                return fv(*args)
+                return fv(*args, **kw)
+            except (ValueError, TypeError) as exc:
+                raise AbsRaise(type(exc).__name__, n)
         raise Unsupported(f"call {name or ast.dump(n.func)[:40]}", n)
 
     # ------------------------------------------------------------------ statements
@@ -1233,6 +1345,32 @@ class Evaluator:
             raise AbsRaise(name, st)
         if isinstance(st, ast.Assert):
             return
+        if isinstance(st, (ast.FunctionDef,)):
+            self.env[st.name] = self._local_function(st)
+            return
+        if isinstance(st, ast.Delete):
+            for t in st.targets:
+                if isinstance(t, ast.Name):
+                    self.env.pop(t.id, None)
+                elif isinstance(t, ast.Subscript):
+                    base = self.ev(t.value)
+                    idx = self.ev(t.slice)
+                    if isinstance(base, dict):
+                        if idx not in base:
+                            raise AbsRaise("KeyError", st)
+                        del base[idx]
+                    elif isinstance(base, list):
+                        try:
+                            del base[idx]
+                        except IndexError:
+                            raise AbsRaise("IndexError", st)
+                    else:
+                        raise Unsupported("del on an abstract container", st)
+                else:
+                    raise Unsupported("del target", st)
+            return
+        if isinstance(st, (ast.Global, ast.Nonlocal)):
+            return
         if isinstance(st, ast.Try):
             try:
                 try:
@@ -1313,16 +1451,23 @@ class Evaluator:
             order = sorted(range(len(base)), key=lambda i: keys[i], reverse=bool(kw.get("reverse", False)))
             base[:] = [base[i] for i in order]
             return True, None
-        if isinstance(base, (list, set, dict, str, tuple)) and not call.keywords:
+        if isinstance(base, (list, set, frozenset, dict, str, tuple)) and not call.keywords:
             args = [self.ev(a) for a in call.args]
-            if attr in ("extend", "update", "intersection", "union", "difference", "issubset", "issuperset", "join"):
+            if attr in ("extend", "update", "intersection", "union", "difference", "issubset", "issuperset", "join",
+                        "isdisjoint", "symmetric_difference", "difference_update", "intersection_update"):
                 args = [list(a.abs_iter()) if hasattr(a, "abs_iter") else a for a in args]
             table = {
                 list: ("append", "extend", "clear", "copy", "pop", "index", "count", "insert", "reverse", "remove", "sort"),
-                set: ("add", "update", "clear", "copy", "intersection", "union", "difference", "discard", "remove"),
-                dict: ("get", "items", "keys", "values", "clear", "copy", "pop", "update"),
+                set: ("add", "update", "clear", "copy", "intersection", "union", "difference", "discard", "remove",
+                      "issubset", "issuperset", "isdisjoint", "symmetric_difference", "pop", "difference_update",
+                      "intersection_update", "symmetric_difference_update"),
+                frozenset: ("copy", "intersection", "union", "difference", "issubset", "issuperset", "isdisjoint",
+                            "symmetric_difference"),
+                dict: ("get", "items", "keys", "values", "clear", "copy", "pop", "update", "setdefault", "popitem"),
                 str: ("split", "strip", "replace", "startswith", "endswith", "lower", "upper", "isdigit", "find",
-                      "rfind", "join"),
+                      "rfind", "join", "lstrip", "rstrip", "splitlines", "partition", "rpartition", "count", "index",
+                      "isalpha", "isnumeric", "isalnum", "isspace", "zfill", "title", "capitalize", "format",
+                      "rsplit", "center", "ljust", "rjust", "isdecimal", "removeprefix", "removesuffix"),
                 tuple: ("index", "count"),
             }
             for ty, names in table.items():
@@ -1364,6 +1509,25 @@ class Evaluator:
         if attr == "astype":
             return True, Vec(list(base.vals))
         raise Unsupported(f"method {attr} of a vector", call)
+
+    def _apply(self, f, args, node):
+        if hasattr(f, "abs_call"):
+            return f.abs_call(list(args), {}, self, node)
+        if callable(f):
+            return f(*args)
+        raise Unsupported("call of a non-callable abstract value", node)
+
+    def _local_function(self, st: ast.FunctionDef):
+        outer = self
+
+        class LocalFunc:
+            def abs_call(self_inner, args, kw, ev, node):
+                # closure: free variables resolve in the defining environment as it is at call time
+                return outer.call_user(st, list(args), kw, closure=outer.env)
+
+            def __call__(self_inner, *args):
+                return self_inner.abs_call(list(args), {}, outer, st)
+        return LocalFunc()
 
     def _rhs(self, target, value):
         if self.opaque_ok and isinstance(target, ast.Name):
